@@ -372,21 +372,13 @@ structure Recycled (s s' : Seg) (a : Nat) : Prop where
   other : ∀ j, j ≠ a → (s'.get j).parent = (s.get j).parent ∧ (s'.get j).child = (s.get j).child ∧
     (s'.get j).sibling = (s.get j).sibling ∧ (s'.get j).copied = (s.get j).copied
 
-/-- recycling a real, isolated root keeps the forest -/
-theorem forest_of_recycled {s s' : Seg} {a : Nat} (hF : Forest s) (ha : Real s a) (hp : (s.get a).parent = none)
-    (hc : (s.get a).child = none) (hr : Recycled s s' a) : Forest s' := by
-  -- nobody real has parent `a`: `a`'s chain is empty
-  have hnone : ∀ j, Real s j → (s.get j).parent ≠ some a := fun j hj hjp => by
-    obtain ⟨l, hk⟩ := hF.kids a ha
-    have := hk.all j hj hjp
-    have hch := hk.chain
-    rw [hc] at hch
-    cases l with
-    | nil => cases this
-    | cons x r => cases hch.1
+/-- recycling a slot that no real slot points at keeps the forest -/
+theorem forest_of_recycled_gen {s s' : Seg} {a : Nat} (hF : Forest s)
+    (hnone : ∀ j, Real s j → j ≠ a → (s.get j).parent ≠ some a)
+    (hout : ∀ i l, Real s i → i ≠ a → Kids s i l → a ∉ l)
+    (hr : Recycled s s' a) : Forest s' := by
   have hreal : ∀ j, j ≠ a → (Real s' j ↔ Real s j) := fun j hj => by unfold Real; rw [(hr.other j hj).2.2.2]
   have hra : Real s' a := hr.slotA.2.2.2
-  -- no chain of a real slot contains `a` (its members have a parent)
   refine ⟨?_, ?_, ?_, ?_, ?_⟩
   · intro i hi
     by_cases hia : i = a
@@ -396,9 +388,9 @@ theorem forest_of_recycled {s s' : Seg} {a : Nat} (hF : Forest s) (ha : Real s a
       by_cases hji : j = i
       · rw [hji, hr.slotA.1] at hjp; cases hjp
       · rw [(hr.other j hji).1] at hjp
-        exact absurd hjp (hnone j ((hreal j hji).mp hj))
+        exact absurd hjp (hnone j ((hreal j hji).mp hj) hji)
     · obtain ⟨l, hk⟩ := hF.kids i ((hreal i hia).mp hi)
-      have hal : a ∉ l := fun hh => by rw [(hk.mem a hh).1] at hp; cases hp
+      have hal : a ∉ l := hout i l ((hreal i hia).mp hi) hia hk
       refine ⟨l, ?_, hk.nodup, ?_, ?_⟩
       · rw [(hr.other i hia).2.1]
         exact sibSeg_congr (fun j hj => (hr.other j (fun hh => hal (hh ▸ hj))).2.2.1) hk.chain
@@ -428,7 +420,7 @@ theorem forest_of_recycled {s s' : Seg} {a : Nat} (hF : Forest s) (ha : Real s a
     · rw [(hr.other j hja).1] at hji
       have hjr := (hreal j hja).mp hj
       have := hF.par j i hjr hji
-      have hia : i ≠ a := fun hh => hnone j hjr (hh ▸ hji)
+      have hia : i ≠ a := fun hh => hnone j hjr hja (hh ▸ hji)
       refine ⟨(hreal i hia).mpr this.1, ?_⟩
       rw [hr.free]
       intro hh
@@ -443,5 +435,26 @@ theorem forest_of_recycled {s s' : Seg} {a : Nat} (hF : Forest s) (ha : Real s a
       by_cases hfa : f = a
       · rw [hfa]; exact ⟨hra, hr.slotA.2.1, hr.slotA.1⟩
       · exact ⟨(hreal f hfa).mpr f1, by rw [(hr.other f hfa).2.1]; exact f2, by rw [(hr.other f hfa).1]; exact f3⟩
+
+/-- recycling a real, isolated root keeps the forest -/
+theorem forest_of_recycled {s s' : Seg} {a : Nat} (hF : Forest s) (ha : Real s a) (hp : (s.get a).parent = none)
+    (hc : (s.get a).child = none) (hr : Recycled s s' a) : Forest s' := by
+  refine forest_of_recycled_gen hF ?_ ?_ hr
+  · intro j hj _ hjp
+    obtain ⟨l, hk⟩ := hF.kids a ha
+    have := hk.all j hj hjp
+    have hch := hk.chain
+    rw [hc] at hch
+    cases l with
+    | nil => cases this
+    | cons x r => cases hch.1
+  · intro i l _ _ hk hh
+    rw [(hk.mem a hh).1] at hp; cases hp
+
+/-- recycling a temporary copy keeps the forest -/
+theorem forest_of_recycled_copy {s s' : Seg} {a : Nat} (hF : Forest s) (ha : ¬ Real s a) (hr : Recycled s s' a) : Forest s' := by
+  refine forest_of_recycled_gen hF ?_ ?_ hr
+  · intro j hj _ hjp; exact ha (hF.par j a hj hjp).1
+  · intro i l _ _ hk hh; exact ha (hk.mem a hh).2
 
 end GrVerif.Seg
